@@ -27,7 +27,13 @@ the infinities are replaced by finite values beyond the finite range (causal min
 ``nanpercentile:<fast-path|numpy-path>[&inf][&all-nan-slice]:values`` (features kept only if the mismatch needs them,
 decided the same way) / ``nanpercentile:<path>[&float32]:dtype|shape``.
 
-Calibration (unchanged tree): see PENDING / findings_proposed/C32.md.
+Calibration (unchanged tree)
+* int8 'wide' data stay within [-60, 60]: np.percentile itself overflows in ``b - a`` for int8 spans > 127
+  (np.percentile(np.int8([-100, 95]), 50) == 125.5), which showed up as ``above-max``.
+* rounding allowance scaled by the number of merged terms (see above).
+* a wrong end point is excluded from the monotonicity facet (one mechanism, one label per case).
+* lazy dtype of da.percentile / nanpercentile is not compared (NumPy's dtype is value dependent with NaN).
+* genuine findings: PENDING / findings_proposed/C32.md.
 """
 from __future__ import annotations
 
@@ -50,7 +56,16 @@ RULE = ("part A cases = (data vector, chunking, method, sorted q vector or scala
         "non-trivial = percentile axis (A) or any axis (B) split into >= 2 chunks; distinct = distinct case descriptions.")
 ASSUMPTIONS = ["NumPy 2.x min/max and nanpercentile are the reference", "sync scheduler"]
 BUDGET = {"quick": 40, "thorough": 500}
-FLOORS = {"quick": {"evaluations": 100, "distinct_nontrivial": 50}, "thorough": {"evaluations": 100, "distinct_nontrivial": 50}}
+FLOORS = {  # ~45 % of the counts measured on the unchanged tree (quick: 5150 cases / 4451 distinct; thorough: 98425 / 79577)
+    "quick": {"evaluations": 2300, "distinct_nontrivial": 2000,
+              "counters": {"percentile_results": 1800, "bounds_checked": 11000, "monotone_checked": 9000, "q0_checked": 1700,
+                           "q100_checked": 1700, "nanpercentile_compared": 450, "nanpercentile_fast_path": 125},
+              "sets": {"method_chunked": 15, "nanpercentile_path": 10}, "max_skipped_fraction": 0.2},
+    "thorough": {"evaluations": 44000, "distinct_nontrivial": 35000,
+                 "counters": {"percentile_results": 31000, "bounds_checked": 170000, "monotone_checked": 140000, "q0_checked": 28000,
+                              "q100_checked": 28000, "nanpercentile_compared": 12500, "nanpercentile_fast_path": 3600},
+                 "sets": {"method_chunked": 15, "nanpercentile_path": 10}, "max_skipped_fraction": 0.2},
+}
 EXHAUSTIVE_SPACE = {
     "quick": "all 255 chunkings of arrays of length 1..8 x 2 data vectors with duplicates x 5 methods, q=(0,10,25,50,75,90,100)",
     "thorough": "all 255 chunkings of length 1..8 x 4 data vectors x 5 methods + every array over {0,1,3} of length <= 5 x every chunking x 5 methods",
@@ -61,7 +76,29 @@ CLAIM = ("Every da.percentile result observed on NaN-free 1-d data was checked t
 LEVEL_NOTE = "NumPy is the reference for min/max and nanpercentile; the approximate percentile is only held to the stated bounds"
 TECHNIQUE = "runtime monitoring: bound/monotonicity oracle on da.percentile, NumPy differential on da.nanpercentile, complete small chunking space"
 
-PENDING = {}
+PENDING = {  # genuine on the unchanged tree; witnesses, mechanisms and the one proposed fix in findings_proposed/C32.md
+    # 1. searchsorted(...)-1 == -1 wraps around to the maximum (fix proposed: clamp `right` at 0)
+    "percentile:method=lower&multi-chunk:q0-not-min": "small q (incl. 0) returns the maximum: index -1 wrap-around in merge_percentiles",
+    "percentile:method=lower&multi-chunk:not-monotone": "same wrap-around for 0 < q below the first cumulative count",
+    "percentile:method=midpoint&multi-chunk:q0-not-min": "same wrap-around ((min+max)/2), plus the tie rule of 2.",
+    "percentile:method=midpoint&multi-chunk:not-monotone": "same wrap-around",
+    # 2. ties at cumulative count 0 resolve to the largest chunk minimum (DESIGN 6 #10, no fix)
+    "percentile:method=linear&multi-chunk:q0-not-min": "q=0 gives the largest chunk minimum (np.interp on duplicate x)",
+    "percentile:method=higher&multi-chunk:q0-not-min": "q=0 gives the largest chunk minimum (upper = right)",
+    # 3. rounding of cumsum(diff(q)*N) with fractional q moves q=100 one entry down (no fix)
+    "percentile:method=lower&multi-chunk:q100-not-max": "q=100 returns an interior value when a fractional q makes the last cumulative count exceed 100*N",
+    "percentile:method=lower&single-chunk:q100-not-max": "same, already with one chunk",
+    "percentile:method=midpoint&multi-chunk:q100-not-max": "same",
+    "percentile:method=midpoint&single-chunk:q100-not-max": "same, already with one chunk",
+    # 4. inf facet (inherited from np.percentile's inf - inf; no fix)
+    "percentile:method=linear&inf:nan-result": "NaN for data containing inf (np.percentile itself)",
+    "percentile:method=midpoint&inf:nan-result": "NaN for data containing inf (np.percentile itself)",
+    "percentile:method=linear&inf:q0-not-min": "NaN chunk percentiles poison the merge: q=0 is not -inf",
+    "percentile:method=midpoint&inf:q0-not-min": "same",
+    # nanpercentile
+    "nanpercentile:fast-path&float32:dtype": "_custom_nanquantile returns float64 for float32 input (fix in findings_proposed/C22.md, finding 5)",
+    "nanpercentile:fast-path&inf:values": "_custom_nanquantile gives +-inf where NumPy computes inf-inf = NaN (no fix)",
+}
 
 METHODS = ["linear", "lower", "higher", "midpoint", "nearest"]
 QFIX = [0, 10, 25, 50, 75, 90, 100]
